@@ -4,7 +4,7 @@ from .progfam import *
 
 def run(tier, seed):
     return run_prog_property(
-        "C03", ["compile", "deep", "static", "params", "witness"], tier, seed,
+        "C03", ["compile", "deep", "static", "params", "witness", "fold", "forwhile"], tier, seed,
         rule="Every text of the families that TemplateProgram::new accepts is instantiated (debug off/on) with arguments "
              "consistent with parameters(): instantiate must be Ok (never `Failed to compile`, never a panic) and commit() "
              "must return a program of type 1 -> 1. Model side: CodegenTotal (the translation scheme never fails on a "
